@@ -626,6 +626,78 @@ func checkC12(c *Check) {
 		c.Hold("R10", "readDiskQueue:per-record-schedule", r.FI.Decl.Pos(), msg == "", msg)
 	}
 
+	// R11: the retry entry put on the wheel carries only the message id; the next attempt – and a restart – read the
+	// record back from the spool. Whatever tryDelivery changes in the record must be on disk before the entry is
+	// scheduled: a field stored after the last updateMetadataOnDisk (LastAttempt "merged" with the schedule's
+	// timestamp) is right in memory for this attempt only; the spool keeps the old value forever and recovery computes
+	// the retry time from it (the message is retried immediately after every restart, burning max_tries).
+	c.Rule("R11", "tryDelivery: every store into the record is followed by updateMetadataOnDisk on every path to the re-scheduling (wheel.Add): the spool copy, which is all the next attempt and a restart see, is never older than the schedule", 3)
+	if r := c.need("R11", queueRel, "Queue", "tryDelivery"); r != nil {
+		var meta types.Object
+		if sig, ok := r.FI.Obj.Type().(*types.Signature); ok {
+			for i := 0; i < sig.Params().Len(); i++ {
+				if pt, isPtr := sig.Params().At(i).Type().(*types.Pointer); isPtr && namedOf(pt.Elem()) != nil && objName(namedOf(pt.Elem()).Obj()) == "QueueMetadata" {
+					meta = sig.Params().At(i)
+				}
+			}
+		}
+		rootIsMeta := func(e ast.Expr) bool {
+			for {
+				switch x := ast.Unparen(e).(type) {
+				case *ast.SelectorExpr:
+					e = x.X
+				case *ast.IndexExpr:
+					e = x.X
+				case *ast.StarExpr:
+					e = x.X
+				case *ast.Ident:
+					return meta != nil && info.Uses[x] == meta
+				default:
+					return false
+				}
+			}
+		}
+		persists := r.F.PtCalls(calling("~/" + queueRel + ".Queue.updateMetadataOnDisk"))
+		schedules := r.F.PtCalls(calling("~/" + queueRel + ".TimeWheel.Add"))
+		nStores := 0
+		for _, pt := range r.F.Points() {
+			var lhs []ast.Expr
+			switch st := pt.Node().(type) {
+			case *ast.AssignStmt:
+				lhs = st.Lhs
+			case *ast.IncDecStmt:
+				lhs = []ast.Expr{st.X}
+			}
+			for _, l := range lhs {
+				if _, isID := ast.Unparen(l).(*ast.Ident); isID || !rootIsMeta(l) {
+					continue
+				}
+				nStores++
+				path, f := r.F.Reach(Query{From: []Pt{pt}, Target: schedules, Avoid: persists})
+				c.Hold("R11", "tryDelivery:store:"+exprStr(l), pt.Node().Pos(), !f, "the record is changed in memory ("+exprStr(l)+") and the retry is scheduled without writing the record again: the spool keeps the old value – the next attempt and every restart compute from it (a stale LastAttempt makes recovery retry at once after each restart): "+r.F.Describe(path))
+			}
+		}
+		if nStores < 3 {
+			c.Fail("R11", "tryDelivery:stores", r.FI.Decl.Pos(), "undecided: fewer than three stores into the record found in tryDelivery")
+		}
+	}
+
+	// R12: a record read back from the spool must be usable by the first attempt after a restart: a nil map in it makes
+	// the attempt panic, and the panic handler files the message as broken – no retry, no failure report (C02.R7)
+	c.Rule("R12", "a record that is read back after a restart carries no nil map that tryDelivery writes to (initialised when first persisted and not dropped by an omitempty tag, or made on demand): the first attempt after a restart cannot panic into the 'broken' state (C02.R7)", 2)
+	{
+		sub := newCheck("C02", c.P, c.Tier)
+		c02RecordMaps(sub)
+		for _, o := range sub.obs {
+			if o.Rule == "R7" {
+				c.Hold("R12", o.Key, o.posRaw, o.OK, o.Msg)
+			}
+		}
+		for f := range sub.funcs {
+			c.SawFunc(f)
+		}
+	}
+
 	c.Rule("R5", "the panic handler of an attempt renames the metadata (quarantine) and never removes spool files", 1)
 	c.Rule("R6", "the synchronous part of the dispatch callback (it runs on the scheduler goroutine) performs no blocking operation", 1)
 	if r := c.need("R6", queueRel, "Queue", "dispatch"); r != nil {
